@@ -3,6 +3,8 @@ import CCVerif.Lemmas.AnalysisChecker
 import CCVerif.Lemmas.AnalysisCheckerPos
 import CCVerif.Lemmas.AnalysisParser
 import CCVerif.Lemmas.AnalysisFuelStab
+import CCVerif.Lemmas.ParserRangesLex
+import CCVerif.Lemmas.ParserShapeTop
 import CCVerif.Properties.C03
 import CCVerif.Properties.C16
 import CCVerif.Properties.C17
@@ -25,7 +27,9 @@ is OBSERVED by `harness/c04_main.cpp` under ASan/UBSan in forked children, not p
 3. **Type checker / value auditor** (`Model/Checker.lean`): an accepting run logs no critical error
    (`accept_no_critical`, EVERY tree); with C03's `reject_has_critical_in_range` and `check_total`
    this is "fails iff at least one critical error" on trees of the parser's shape
-   (`typecheck_failure_iff_critical`); the value auditor logs exactly when it fails; on EVERY parsed
+   (`typecheck_failure_iff_critical`; for parsed trees the range hypothesis `WfRange` is discharged by
+   C06's range nesting: `parse_wfRange`, `parsed_typecheck_failure_iff_critical_partial`,
+   `parsed_typecheck_faithful_partial` need `WfTop` only); the value auditor logs exactly when it fails; on EVERY parsed
    tree every position either auditor logs lies in `[0, length of the text]`
    (`typecheck_positions_in_input`, `valuecheck_positions_in_input`, no shape hypothesis).
 4. Re-exports of the neighbouring results that cover other entry points of the property
@@ -34,6 +38,8 @@ is OBSERVED by `harness/c04_main.cpp` under ASan/UBSan in forked children, not p
 namespace CCVerif.C04
 open CCVerif.Syntax CCVerif.Generated CCVerif.Lexer CCVerif.Parser CCVerif.Scan CCVerif.Analysis
 open CCVerif.Types CCVerif.Checker
+
+def units (s : String) : List Nat := s.toList.map Char.toNat
 
 /-! ## 1. lexers -/
 
@@ -381,8 +387,8 @@ theorem valuecheck_positions_in_input (syn : Syn) (text : List Nat) (Γ : Ctx) (
 /-- the demand on every tree the parser returns: the type check reaches no faulting site, fails iff it
 logged a critical error, and all logged positions lie in the text. The third clause is proved for every
 parsed tree (`typecheck_positions_in_input`); the first two are NOT proved in this generality: that a
-parsed tree has the shape `WfTop` / `WfRange` that C03's theorems assume is not proved (nesting of
-ranges is C06's open `range_nested_statement`) -/
+parsed tree has the shape `WfTop` that C03's theorems assume is not proved (`WfRange` is:
+`parse_wfRange`, from C06's range nesting) -/
 def typecheck_faithful_statement : Prop :=
   ∀ (syn : Syn) (text : List Nat) (Γ : Ctx) (t : Ast), parse syn text = some t →
     (∀ site, (check Γ t).out ≠ .stuck site) ∧
@@ -414,6 +420,98 @@ theorem typecheck_faithful_partial (syn : Syn) (text : List Nat) (Γ : Ctx) (xs 
     (∀ err, err ∈ (check Γ t).errs → 0 ≤ err.2 ∧ err.2 ≤ text.length) := by
   exact ⟨CCVerif.C03.check_total Γ xs t hg, typecheck_failure_iff_critical Γ xs t hw hg,
     typecheck_positions_in_input syn text Γ t hp⟩
+
+/-! ### parsed trees: the range hypothesis is discharged (C06 `range_nested`) -/
+
+/-- **parse_wfRange**: every tree `parse` returns (both syntaxes, every text) satisfies the range
+hypothesis `WfRange` of the C03 / C04 checker theorems: every node has `lo < hi` and contains its
+children. Proof: the invariant of the twelve parser functions in `Lemmas/ParserRanges*.lean` ("the tree
+built so far lies between the tokens consumed") on top of `lex_ranges_ordered` and the non-emptiness of
+token ranges (`ParserRanges.tiled_strict`). The same fact is C06's `range_nested`. -/
+theorem parse_wfRange (syn : Syn) (text : List Nat) (t : Ast) (h : parse syn text = some t) : WfRange t :=
+  CCVerif.ParserRanges.nest_wfRange (Int.le_refl 1) t (CCVerif.ParserRanges.parse_nest syn text t h).1
+
+/-- **parsed_typecheck_errors_in_range**: on EVERY parsed tree, in every context, every error and warning
+the type check logs is positioned inside the range of the expression — no hypothesis left. -/
+theorem parsed_typecheck_errors_in_range (syn : Syn) (text : List Nat) (Γ : Ctx) (t : Ast) (h : parse syn text = some t) :
+    ∀ err, err ∈ (check Γ t).errs → CCVerif.C03.InRange t err :=
+  CCVerif.C03.errors_in_range Γ t (parse_wfRange syn text t h)
+
+/-- **parsed_typecheck_failure_iff_critical_partial**: `typecheck_failure_iff_critical` for parsed trees
+WITHOUT the `WfRange` hypothesis. Still needed: `WfTop Γ xs t` (arities, payloads, set / logic /
+declaration positions, and "a call in a set position names a function whose declared type is not
+LOGIC", which depends on the context) — that the parser model only returns such trees is not proved. -/
+theorem parsed_typecheck_failure_iff_critical_partial (syn : Syn) (text : List Nat) (Γ : Ctx) (xs : List String) (t : Ast)
+    (hp : parse syn text = some t) (hg : WfTop Γ xs t) :
+    (check Γ t).out = .fail ↔ ∃ err, err ∈ (check Γ t).errs ∧ isCritical err.1 = true :=
+  typecheck_failure_iff_critical Γ xs t (parse_wfRange syn text t hp) hg
+
+/-- **parsed_typecheck_faithful_partial**: `typecheck_faithful_statement` for a parsed tree under the one
+remaining shape hypothesis `WfTop Γ xs t`. -/
+theorem parsed_typecheck_faithful_partial (syn : Syn) (text : List Nat) (Γ : Ctx) (xs : List String) (t : Ast)
+    (hp : parse syn text = some t) (hg : WfTop Γ xs t) :
+    (∀ site, (check Γ t).out ≠ .stuck site) ∧
+    ((check Γ t).out = .fail ↔ ∃ err, err ∈ (check Γ t).errs ∧ isCritical err.1 = true) ∧
+    (∀ err, err ∈ (check Γ t).errs → 0 ≤ err.2 ∧ err.2 ≤ text.length) :=
+  typecheck_faithful_partial syn text Γ xs t hp (parse_wfRange syn text t hp) hg
+
+/-! ### parsed trees: the shape hypothesis is discharged too (C06 `parse_gives_WfParsed`) -/
+
+/-- **parsed_typecheck_total**: for EVERY text that parses (both syntaxes) and every context in which the
+function names occurring in the text are not LOGIC-typed (`ParserShape.FuncsNotLogic`: true of every `Schema`),
+the type check of the parsed tree reaches none of the faulting sites of the C++. No hypothesis on the tree:
+the parser model only returns trees of the shape `Checker.WfParsed` (`Lemmas/ParserShape*.lean`), and the
+checker is total on them (`Checker.check_facts_parsed`). -/
+theorem parsed_typecheck_total (syn : Syn) (text : List Nat) (Γ : Ctx) (t : Ast) (hp : parse syn text = some t)
+    (hΓ : ∀ ts, lex syn text = some ts → CCVerif.ParserShape.FuncsNotLogic Γ ts) :
+    ∀ site, (check Γ t).out ≠ .stuck site := by
+  obtain ⟨xs, hw⟩ := CCVerif.ParserShape.parse_wfParsed syn text t hp hΓ
+  exact (check_facts_parsed Γ hw _ (Nat.le_succ _)).1
+
+/-- **parsed_typecheck_failure_iff_critical**: "the analysis reports failure iff it logged at least one
+critical error" for the TypeAuditor on EVERY parsed text, under the one hypothesis on the context
+(`FuncsNotLogic`); neither `WfRange` nor `WfTop` is assumed any more. -/
+theorem parsed_typecheck_failure_iff_critical (syn : Syn) (text : List Nat) (Γ : Ctx) (t : Ast) (hp : parse syn text = some t)
+    (hΓ : ∀ ts, lex syn text = some ts → CCVerif.ParserShape.FuncsNotLogic Γ ts) :
+    (check Γ t).out = .fail ↔ ∃ err, err ∈ (check Γ t).errs ∧ isCritical err.1 = true := by
+  obtain ⟨xs, hw⟩ := CCVerif.ParserShape.parse_wfParsed syn text t hp hΓ
+  have hf := check_facts_parsed Γ hw _ (Nat.le_succ (Ast.depth t))
+  constructor
+  · intro hfail
+    obtain ⟨err, h1, h2, _⟩ :=
+      CCVerif.C03.reject_has_critical_in_range_anytree Γ t (parse_wfRange syn text t hp) hfail hf.2
+    exact ⟨err, h1, h2⟩
+  · rintro ⟨err, h1, h2⟩
+    cases ho : (check Γ t).out with
+    | fail => rfl
+    | stuck site => exact absurd ho (hf.1 site)
+    | ok τ => have := accept_no_critical Γ t τ ho err h1; rw [h2] at this; cases this
+
+/-- **parsed_typecheck_faithful**: the three clauses of `typecheck_faithful_statement` for every parsed text and
+every context in which the function names of the text are not LOGIC-typed. Without that hypothesis the
+statement is false (`typecheck_faithful_statement_false`). -/
+theorem parsed_typecheck_faithful (syn : Syn) (text : List Nat) (Γ : Ctx) (t : Ast) (hp : parse syn text = some t)
+    (hΓ : ∀ ts, lex syn text = some ts → CCVerif.ParserShape.FuncsNotLogic Γ ts) :
+    (∀ site, (check Γ t).out ≠ .stuck site) ∧
+    ((check Γ t).out = .fail ↔ ∃ err, err ∈ (check Γ t).errs ∧ isCritical err.1 = true) ∧
+    (∀ err, err ∈ (check Γ t).errs → 0 ≤ err.2 ∧ err.2 ≤ text.length) :=
+  ⟨parsed_typecheck_total syn text Γ t hp hΓ, parsed_typecheck_failure_iff_critical syn text Γ t hp hΓ,
+    typecheck_positions_in_input syn text Γ t hp⟩
+
+/-- the context of C03's `check_total_needs_functype_counterexample`: the term-function `F1` is given the type LOGIC -/
+def ctxBadFunc : Ctx :=
+  { CCVerif.C03.ctxK with types := ("F1", .logic) :: CCVerif.C03.ctxK.types, funcs := [("F1", [("a", .coll (.base "X1"))])] }
+
+/-- **typecheck_faithful_statement_false**: as stated (every context) the demand is false — the text `F1[X1]+1`
+parses, and in a context that types the function `F1` as LOGIC (no `Schema` does) the check reaches
+`bad_variant_access` in `ViArithmetic`. -/
+theorem typecheck_faithful_statement_false : ¬ typecheck_faithful_statement := by
+  intro h
+  have hp : parse .math (units "F1[X1]+1") = some
+      (.node .PLUS .none 0 8 [.node .NT_FUNC_CALL .none 0 6 [.node .ID_FUNCTION (.text "F1") 0 2 [], .node .ID_GLOBAL (.text "X1") 3 5 []],
+        .node .LIT_INTEGER (.int 1) 7 8 []]) :=
+    CCVerif.ParserRanges.parse_eq_of_same _ _ _ (by decide +kernel)
+  exact (h .math _ ctxBadFunc _ hp).1 "bad_variant_access:ViArithmetic" (by decide +kernel)
 
 /-- **valuecheck_failure_faithful**: the value auditor (`ValueAuditor::Check`, with a reporter) logs
 exactly when it fails: an accepting run leaves the log empty, a failing run (that did not reach a
@@ -472,8 +570,6 @@ theorem typecheck_errors_in_range (Γ : Ctx) (e : Ast) (hw : WfRange e) :
 
 /-! ## non-vacuity -/
 
-def units (s : String) : List Nat := s.toList.map Char.toNat
-
 /-- `a @b` in MATH: LOCAL [0,1), INTERRUPT [2,3) for `@`, LOCAL [3,4), END [4,4); one blank skipped -/
 example : lexRaw .math (units "a @b") =
     some [⟨.ID_LOCAL, 0, 1, [97]⟩, ⟨.INTERRUPT, 2, 3, [64]⟩, ⟨.ID_LOCAL, 3, 4, [98]⟩, ⟨.END, 4, 4, []⟩] := by
@@ -524,6 +620,23 @@ example : ((parse .math (units "red(X1)")).map fun t => ((check CCVerif.C03.ctxK
 example : (check CCVerif.C03.ctxK CCVerif.C03.exUnionLogic).out = .fail ∧
     (∃ err, err ∈ (check CCVerif.C03.ctxK CCVerif.C03.exUnionLogic).errs ∧ isCritical err.1 = true) :=
   ⟨by decide +kernel, ⟨(0x8807, 0), by decide +kernel, by decide⟩⟩
+
+/-- the hypotheses of `parsed_typecheck_failure_iff_critical_partial` / `parsed_typecheck_faithful_partial`
+hold together on a parsed text: `A1∪X1` parses to C03's `exUnionLogic`, which is `WfTop`; it is rejected with
+a critical error (both sides of the equivalence are true) -/
+example : parse .math (units "A1∪X1") = some CCVerif.C03.exUnionLogic ∧ WfTop CCVerif.C03.ctxK [] CCVerif.C03.exUnionLogic ∧
+    (check CCVerif.C03.ctxK CCVerif.C03.exUnionLogic).out = .fail :=
+  ⟨CCVerif.ParserRanges.parse_eq_of_same _ _ _ (by decide +kernel),
+   .ofDef (.expr (Or.inl (.sSetbin (Or.inl rfl) (.sGlobal (Or.inl rfl)) (.sGlobal (Or.inl rfl))))),
+   by decide +kernel⟩
+
+/-- the hypothesis of `parsed_typecheck_total` / `parsed_typecheck_failure_iff_critical` / `parsed_typecheck_faithful`
+holds for C03's context on a text WITH a function call: `F1[X1]∪X1` (F1 is not declared in `ctxK`, so not
+LOGIC-typed); the text parses, and the check rejects it with a critical error -/
+example : (∀ ts, lex .math (units "F1[X1]∪X1") = some ts → CCVerif.ParserShape.FuncsNotLogic CCVerif.C03.ctxK ts) ∧
+    ((parse .math (units "F1[X1]∪X1")).map fun t => ((check CCVerif.C03.ctxK t).out, (check CCVerif.C03.ctxK t).errs.map (fun e => isCritical e.1))) =
+      some (.fail, [true]) := by
+  exact ⟨CCVerif.ParserShape.funcsNotLogic_of_check (by decide +kernel), by decide +kernel⟩
 
 /-- value auditor: `X1` has no value class in the empty context — fails with the critical
 `globalNoValue`; an integer literal is accepted with an empty log -/
